@@ -208,7 +208,37 @@ type Req struct {
 	Remote      string
 	Ctx         context.Context
 	HeaderMulti map[string][]string
+	// Slow: the body arrives in len(Slow)+1 pieces and Slow[i] of virtual time passes (timers fire, background
+	// work runs) after piece i has been read. Only for requests issued from the main thread.
+	Slow []time.Duration
 }
+
+// slowBody is a request body during whose transfer virtual time passes.
+type slowBody struct {
+	data []byte
+	adv  []time.Duration
+	i    int
+}
+
+func (b *slowBody) Read(p []byte) (int, error) {
+	if len(b.data) == 0 {
+		return 0, io.EOF
+	}
+	if b.i > 0 && b.i <= len(b.adv) {
+		vrt.Advance(b.adv[b.i-1], false)
+	}
+	left := len(b.adv) + 1 - b.i
+	n := (len(b.data) + left - 1) / left
+	if n > len(p) {
+		n = len(p)
+	}
+	copy(p, b.data[:n])
+	b.data = b.data[n:]
+	b.i++
+	return n, nil
+}
+
+func (b *slowBody) Close() error { return nil }
 
 type Resp struct {
 	Status  int
@@ -303,6 +333,9 @@ func (w *World) DoNoQuiesce(r Req) (resp Resp) {
 	}
 	if r.Body != nil {
 		req.Body = io.NopCloser(bytes.NewReader(r.Body))
+		if len(r.Slow) > 0 {
+			req.Body = &slowBody{data: append([]byte{}, r.Body...), adv: r.Slow}
+		}
 		req.ContentLength = int64(len(r.Body))
 		if r.UnknownLen {
 			req.ContentLength = -1
